@@ -85,6 +85,11 @@ SiblingFocus ==   \* 1 and 3 share a shape and the prototype 2
     \cup {X(1, "a"), X(3, "a"), F(1), D(2, "a", "as"), X(2, "a"), P(3, 0)}
     \cup (IF Wide THEN {D(1, "b", "dw"), D(3, "b", "dw"), X(1, "b"), D(2, "a", "dw"), E(3)} ELSE {})
 
+GlobalFocus ==    \* object 1 is the global object: name lookups through a GetNameGlobal site, prototype 2
+  {NG(1, "a"), G(1, "a"), S(1, "a")} \cup Defs(1, "a", {"dw", "dr", "as"}) \cup Defs(2, "a", {"dw", "as", "ag"})
+    \cup {X(1, "a"), X(2, "a"), X(1, "b"), D(2, "b", "ag"), X(2, "b"), P(1, 0), P(1, 2)}
+    \cup (IF Wide THEN {F(1), F(2), D(1, "b", "ag"), D(2, "a", "dr"), P(1, 3), D(3, "a", "dw")} ELSE {})
+
 CatEntry(u, pre, alpha) == [uq |-> u, glob |-> 0, pre |-> pre, alpha |-> alpha]
 GlobEntry(u, g, pre, alpha) == [uq |-> u, glob |-> g, pre |-> pre, alpha |-> alpha]
 
@@ -101,7 +106,11 @@ CatAt(c) ==
     [] c = 9 -> CatEntry(FFF, <<P(1, 2), P(3, 2), D(1, "a", "dw"), D(3, "a", "dw"), G(1, "a"), S(1, "a"), G(3, "a")>>, SiblingFocus)   \* 9: two receivers with one shape
     [] c = 10 -> CatEntry(TTF, <<P(1, 2), D(2, "a", "as"), G(1, "a"), S(1, "a"), G(1, "a")>>, ProtoFocus)   \* 10: unique receiver and unique prototype, accessor on the prototype
     [] c = 11 -> CatEntry(FFF, <<P(1, 2)>>, ProtoFocus \cup {D(1, "b", "dw")})   \* 11: nothing set up: the sites start cold
-NCat == 11
+    [] c = 12 -> CatEntry(FFF, <<P(1, 2), D(2, "b", "dw"), D(2, "a", "dw"), W("G", "a", 3), G(1, "a"), G(1, "a")>>, ProtoFocus)   \* 12: get site with three foreign entries: the next new shape makes it megamorphic
+    [] c = 13 -> CatEntry(FFF, <<D(1, "b", "dw"), D(1, "a", "dw"), W("S", "a", 3), S(1, "a"), S(1, "a"), G(1, "a")>>, OwnFocus)   \* 13: set site with three foreign entries
+    [] c = 14 -> GlobEntry(TFF, 1, <<P(1, 2), D(2, "b", "dw"), D(2, "a", "dw"), NG(1, "a"), NG(1, "a")>>, GlobalFocus)   \* 14: the global object, binding found on its prototype
+    [] c = 15 -> GlobEntry(TFF, 1, <<D(1, "b", "dw"), D(1, "a", "dw"), NG(1, "a"), NG(1, "a"), S(1, "a")>>, GlobalFocus)   \* 15: the global object, own binding
+NCat == 15
 
 -----------------------------------------------------------------------------
 IsAccess(op) == op.op \in {"G", "S", "N"}
